@@ -221,3 +221,47 @@ func loopObligations(p *Prog, r *Report, reach map[*ssa.Function]bool) {
 	}
 	r.floor("loops-in-reachable-code", n, 8)
 }
+
+// earlyLoopExits: ways out of the loops of the virtual body of c (fn and the new helpers it
+// reaches) other than the header's own test, from which a success-capable return of that
+// function is reachable without re-entering the loop — a `break` (or `return nil`) that ends the
+// iteration before the whole list / iterator was visited. An exit that can only reach error
+// returns or panics is a rejection, not an early exit.
+func (c *FC) earlyLoopExits() []string {
+	var out []string
+	fns := []*ssa.Function{c.fn}
+	seen := map[*ssa.Function]bool{c.fn: true}
+	for _, lc := range c.p.liftedCalls(c.fn) {
+		if c.p.newHelper(lc.callee) && !seen[lc.callee] {
+			seen[lc.callee] = true
+			fns = append(fns, lc.callee)
+		}
+	}
+	for _, fn := range fns {
+		x := c.p.tx(fn)
+		for _, li := range c.p.loopsOf(fn) {
+			for b := range li.blocks {
+				for slot, sb := range b.Succs {
+					if li.blocks[sb] {
+						continue
+					}
+					if b == li.header {
+						continue // the loop's own test
+					}
+					// can a success-capable return be reached from sb?
+					reach := reachFrom([]*ssa.BasicBlock{sb}, nil)
+					for rb := range reach {
+						if ret, ok := rb.Instrs[len(rb.Instrs)-1].(*ssa.Return); ok {
+							if k := c.p.exitKind(x, ret); k != "error" {
+								out = append(out, fmt.Sprintf("%s: edge %d of the branch at %s leaves the loop headed at %s towards the return at %s", funcName(fn), slot, c.p.instrPos(b.Instrs[len(b.Instrs)-1]), c.p.instrPos(li.header.Instrs[0]), c.p.instrPos(ret)))
+								break
+							}
+						}
+					}
+				}
+			}
+		}
+	}
+	sort.Strings(out)
+	return out
+}
